@@ -216,6 +216,10 @@ pub fn run_batch(prop: &str, seed: u64, n: u64, workers: u64) -> Batch {
     let mut samples = vec![];
     let mut crashes = vec![];
     let mut done = 0;
+    // a worker that dies is replaced by one that takes up its share right after the index that
+    // killed it (a few times at most), so that one crashing run does not hide what the rest of
+    // the share would have shown
+    let mut restarts: BTreeMap<u64, u32> = BTreeMap::new();
     let hang_limit = Duration::from_secs(std::env::var("VERIF_HANG_S").ok().and_then(|s| s.parse().ok()).unwrap_or(120));
     // watchdog: a worker stuck on one run index for too long is killed
     let mut last_cur: BTreeMap<u64, (String, Instant)> = BTreeMap::new();
@@ -254,6 +258,25 @@ pub fn run_batch(prop: &str, seed: u64, n: u64, workers: u64) -> Batch {
                             let idx: u64 = cur.trim().parse().unwrap_or(u64::MAX);
                             let tail: String = err.lines().rev().take(6).collect::<Vec<_>>().into_iter().rev().collect::<Vec<_>>().join(" | ");
                             crashes.push((idx, format!("worker {w} died ({status}) {note} at run index {idx}: {tail}")));
+                            let k = restarts.entry(w).or_insert(0);
+                            if idx != u64::MAX && *k < 6 && found.len() < 64 {
+                                *k += 1;
+                                let next = idx + workers;
+                                // indices of this share: w, w + workers, ... below n
+                                let remaining = if next < n { (n - next + workers - 1) / workers } else { 0 };
+                                if remaining > 0 {
+                                    let out2 = dir.join(format!("w{w}r{k}.json"));
+                                    if let Ok(child2) = Command::new(&exe)
+                                        .args(["worker", prop, &seed.to_string(), &next.to_string(), &workers.to_string(), &remaining.to_string(), out2.to_str().unwrap()])
+                                        .stdout(Stdio::null())
+                                        .stderr(Stdio::piped())
+                                        .spawn()
+                                    {
+                                        last_cur.remove(&w);
+                                        still.push((w, child2, out2, Instant::now(), String::new()));
+                                    }
+                                }
+                            }
                         }
                     }
                 }
